@@ -988,6 +988,46 @@ func planCanon(p *Prog, stdlib, methods bool) canonPlan {
 						keep[pkgIdent(x.Fun)] = true
 						plan.expanded = append(plan.expanded, "stdlib "+name)
 						return true
+					case "slices.SortedFunc":
+						// slices.SortedFunc(maps.Keys(m), cmp): the keys collected, then slices.SortFunc(r, cmp)
+						if len(x.Args) != 2 || !isPlainOperand(x.Args[1]) {
+							return true
+						}
+						inner, ok := ast.Unparen(x.Args[0]).(*ast.CallExpr)
+						if !ok || len(inner.Args) != 1 {
+							return true
+						}
+						in2 := stdName(inner.Fun)
+						if in2 != "maps.Keys" && in2 != "maps.Values" {
+							return true
+						}
+						rt, okr := typeText(info.TypeOf(x), x.Pos())
+						if !okr || !free(x.Pos(), x.End()) {
+							return true
+						}
+						{
+							// written in place (the comparator stays the caller's expression): a function literal called at once
+							loop := "for k := range " + in.text(inner.Args[0].Pos(), inner.Args[0].End()) + " {\n\t\tr = append(r, k)\n\t}\n"
+							if in2 == "maps.Values" {
+								loop = "for _, k := range " + in.text(inner.Args[0].Pos(), inner.Args[0].End()) + " {\n\t\tr = append(r, k)\n\t}\n"
+							}
+							txt := "func() " + rt + " {\n\tvar r " + rt + "\n\t" + loop + "\tslices.SortFunc(r, " + in.text(x.Args[1].Pos(), x.Args[1].End()) + ")\n\treturn r\n}()"
+							from, to := x.Pos(), x.End()
+							// the whole right-hand side of a plain assignment: statements in place, the list built in the target
+							if as, isAs := p.parents[x].(*ast.AssignStmt); isAs && len(as.Lhs) == 1 && len(as.Rhs) == 1 && as.Rhs[0] == ast.Expr(x) && as.Tok == token.ASSIGN && isPlainOperand(as.Lhs[0]) && free(as.Pos(), as.End()) {
+								lhs := in.text(as.Lhs[0].Pos(), as.Lhs[0].End())
+								loop2 := strings.ReplaceAll(loop, "r = append(r, k)", lhs+" = append("+lhs+", k)")
+								txt = "{\n" + lhs + " = nil\n" + loop2 + "slices.SortFunc(" + lhs + ", " + in.text(x.Args[1].Pos(), x.Args[1].End()) + ")\n}"
+								from, to = as.Pos(), as.End()
+							}
+							fe := in.file(x.Pos())
+							fe.edits = append(fe.edits, textEdit{start: in.off(from), end: in.off(to), text: txt})
+							taken = append(taken, [2]token.Pos{from, to})
+							keep[pkgIdent(x.Fun)] = true
+							keep[pkgIdent(inner.Fun)] = true
+							plan.expanded = append(plan.expanded, "stdlib slices.SortedFunc")
+						}
+						return true
 					case "slices.Collect", "slices.Sorted":
 						if len(x.Args) != 1 {
 							return true
@@ -1063,7 +1103,12 @@ func planCanon(p *Prog, stdlib, methods bool) canonPlan {
 							return true
 						}
 						id, isId := x.Lhs[0].(*ast.Ident)
-						lit, isLit := ast.Unparen(x.Rhs[0]).(*ast.CompositeLit)
+						rhs0 := ast.Unparen(x.Rhs[0])
+						// (a pointer to a fresh literal that is only ever used field by field is no different)
+						if u, isU := rhs0.(*ast.UnaryExpr); isU && u.Op == token.AND {
+							rhs0 = ast.Unparen(u.X)
+						}
+						lit, isLit := rhs0.(*ast.CompositeLit)
 						if !isId || !isLit || id.Name == "_" {
 							return true
 						}
@@ -1071,7 +1116,11 @@ func planCanon(p *Prog, stdlib, methods bool) canonPlan {
 						if v == nil {
 							return true
 						}
-						st, isSt := v.Type().Underlying().(*types.Struct)
+						vt := v.Type()
+						if pt, isPtr := vt.Underlying().(*types.Pointer); isPtr {
+							vt = pt.Elem()
+						}
+						st, isSt := vt.Underlying().(*types.Struct)
 						if !isSt || st.NumFields() == 0 || st.NumFields() > 12 {
 							return true
 						}
